@@ -344,7 +344,8 @@ pub fn run(tier: Tier) -> i32 {
     // the whole thorough alphabet costs a few seconds: both tiers run it
     let quick = false;
     // thorough: every psk-modifier subset of every pattern (556 names per cipher x backend) and more payload lengths
-    let thorough = !ctx.quick();
+    // (the deeper alphabet costs well under a minute: the quick tier runs it too)
+    let thorough = true;
     ctx.set_rule("case = one delivery to a transport-mode read: the peer's genuine message altered by every single-bit flip, every truncation length, extensions, all-zero / all-ones strings, reflection to its own sender, the corresponding message of a parallel session with the same static keys, a handshake message, and (stateless) the genuine message under every other nonce of a 80-value boundary alphabet; stateful and stateless, both directions, 38 patterns + psk variants x 3 ciphers x 2 backends, output buffers comfortably large and (un-modified patterns) exactly payload-sized / payload + 9; the cross-session / reflection deliveries again after dangerously_get_raw_split was queried early by both parties and after rekey_manually with two keys; oracle: Ok iff unaltered message of this session, direction, key and nonce. non-trivial = the delivery was rejected as required");
     // last element: output buffers of the reads - 0 comfortably large, 1 exactly the payload size, 2 payload size + 9
     let mut cases: Vec<(Proto, Backend, bool, usize, usize, u8)> = vec![];
